@@ -1,0 +1,111 @@
+//go:build verif
+// +build verif
+
+package preference_reversal
+
+// Contracts for gocv (comment-only; compiled out unless the tag "verif" is set, and empty then).
+
+//@ spec mirrored(r utils.ValueRange, v real) real = r.Max - v + r.Min
+
+//@ func getCriteriaToReverse
+//@   property C16
+//@   ensures [selected] fresh(result) && fresh(*result) && len(*result) == len(*criteriaToReverse)
+//@             && forall k int :: 0 <= k && k < len(*criteriaToReverse) ==> (*result)[k].criterion == (*criteriaToReverse)[k] && (*result)[k].valRange != nil
+//@   ensures [declared_range] forall k int :: 0 <= k && k < len(*criteriaToReverse) && (*criteriaToReverse)[k].ValuesRange != nil ==> (*result)[k].valRange == (*criteriaToReverse)[k].ValuesRange
+//@   ensures [observed_range reveal:observed] forall k int :: 0 <= k && k < len(*criteriaToReverse) && (*criteriaToReverse)[k].ValuesRange == nil ==>
+//@             model.observedAll(*(*result)[k].valRange, currentParams.ConsideredAlternatives, currentParams.NotConsideredAlternatives, (*criteriaToReverse)[k].Id)
+//@   loop 1 invariant [ctx] fresh(result) && len(result) == len(*criteriaToReverse) && len(allAlternatives) == len(currentParams.ConsideredAlternatives) + len(currentParams.NotConsideredAlternatives)
+//@   loop 1 invariant [all] forall k int :: 0 <= k && k < len(allAlternatives) ==> allAlternatives[k] == model.altAt(currentParams.ConsideredAlternatives, currentParams.NotConsideredAlternatives, k)
+//@   loop 1 invariant [selected] forall k int :: 0 <= k && k < iter ==> result[k].criterion == (*criteriaToReverse)[k] && result[k].valRange != nil
+//@   loop 1 invariant [declared_range] forall k int :: 0 <= k && k < iter && (*criteriaToReverse)[k].ValuesRange != nil ==> result[k].valRange == (*criteriaToReverse)[k].ValuesRange
+//@   loop 1 invariant [observed_range] forall k int :: 0 <= k && k < iter && (*criteriaToReverse)[k].ValuesRange == nil ==>
+//@             model.observed(*result[k].valRange, allAlternatives, (*criteriaToReverse)[k].Id) && fresh(result[k].valRange)
+
+//@ pred distinctAll(a []model.AlternativeWithCriteria, b []model.AlternativeWithCriteria) =
+//@      (forall i int, j int :: 0 <= i && i < j && j < len(a) ==> a[i].Id != a[j].Id)
+//@   && (forall i int, j int :: 0 <= i && i < j && j < len(b) ==> b[i].Id != b[j].Id)
+//@   && (forall i int, j int :: 0 <= i && i < len(a) && 0 <= j && j < len(b) ==> a[i].Id != b[j].Id)
+
+//@ pred reversedFrom(nw model.AlternativeWithCriteria, od model.AlternativeWithCriteria, ctr []criterionToReverse) =
+//@      nw.Id == od.Id
+//@   && (forall k int :: 0 <= k && k < len(ctr) ==> ctr[k].criterion.Id in nw.Criteria && nw.Criteria[ctr[k].criterion.Id] == mirrored(*ctr[k].valRange, od.Criteria[ctr[k].criterion.Id]))
+//@   && (forall q string :: (forall k int :: 0 <= k && k < len(ctr) ==> ctr[k].criterion.Id != q) ==>
+//@          ((q in nw.Criteria <==> q in od.Criteria) && (q in nw.Criteria ==> nw.Criteria[q] == od.Criteria[q])))
+
+//@ func reverseCriteriaForEachAlternative
+//@   property C16 C09
+//@   requires forall i int, j int :: 0 <= i && i < j && j < len(*criteriaToReverse) ==> (*criteriaToReverse)[i].criterion.Id != (*criteriaToReverse)[j].criterion.Id
+//@   requires forall k int :: 0 <= k && k < len(*criteriaToReverse) ==> (*criteriaToReverse)[k].valRange != nil
+//@   ensures [all_alternatives] fresh(result0) && fresh(*result0) && len(*result0) == len(resParams.ConsideredAlternatives) + len(resParams.NotConsideredAlternatives)
+//@             && forall i int :: 0 <= i && i < len(*result0) ==> (*result0)[i].Id == model.altAt(resParams.ConsideredAlternatives, resParams.NotConsideredAlternatives, i).Id
+//@   ensures [mirrored] forall i int, k int :: 0 <= i && i < len(*result0) && 0 <= k && k < len(*criteriaToReverse) ==>
+//@             (*criteriaToReverse)[k].criterion.Id in (*result0)[i].Criteria &&
+//@             (*result0)[i].Criteria[(*criteriaToReverse)[k].criterion.Id] ==
+//@               mirrored(*(*criteriaToReverse)[k].valRange, model.altAt(resParams.ConsideredAlternatives, resParams.NotConsideredAlternatives, i).Criteria[(*criteriaToReverse)[k].criterion.Id])
+//@   ensures [others_unchanged] forall i int, q string :: 0 <= i && i < len(*result0) && (forall k int :: 0 <= k && k < len(*criteriaToReverse) ==> (*criteriaToReverse)[k].criterion.Id != q) ==>
+//@             ((q in (*result0)[i].Criteria <==> q in model.altAt(resParams.ConsideredAlternatives, resParams.NotConsideredAlternatives, i).Criteria)
+//@              && (q in (*result0)[i].Criteria ==> (*result0)[i].Criteria[q] == model.altAt(resParams.ConsideredAlternatives, resParams.NotConsideredAlternatives, i).Criteria[q]))
+//@   ensures [fresh_maps] forall i int :: 0 <= i && i < len(*result0) ==> fresh((*result0)[i].Criteria)
+//@   ensures [considered_part] forall i int :: 0 <= i && i < len(resParams.ConsideredAlternatives) ==> reversedFrom((*result0)[i], resParams.ConsideredAlternatives[i], *criteriaToReverse)
+//@   ensures [not_considered_part] forall i int :: 0 <= i && i < len(resParams.NotConsideredAlternatives) ==>
+//@             reversedFrom((*result0)[len(resParams.ConsideredAlternatives) + i], resParams.NotConsideredAlternatives[i], *criteriaToReverse)
+//@   ensures [report_shape] fresh(result1) && fresh(*result1) && len(*result1) == len(*criteriaToReverse)
+//@   loop 1 invariant [ctx] fresh(alternativesValues) && len(alternativesValues) == len(*criteriaToReverse) && fresh(allAlternatives)
+//@             && len(allAlternatives) == len(resParams.ConsideredAlternatives) + len(resParams.NotConsideredAlternatives)
+//@   loop 1 invariant [all] forall k int :: 0 <= k && k < len(allAlternatives) ==> allAlternatives[k] == model.altAt(resParams.ConsideredAlternatives, resParams.NotConsideredAlternatives, k)
+//@   loop 1 invariant [maps] forall k int :: 0 <= k && k < iter ==> fresh(alternativesValues[k]) && alternativesValues[k] != nil
+//@   loop 2 invariant [ctx] fresh(alternativesValues) && len(alternativesValues) == len(*criteriaToReverse) && fresh(allAlternatives)
+//@             && len(allAlternatives) == len(resParams.ConsideredAlternatives) + len(resParams.NotConsideredAlternatives)
+//@   loop 2 invariant [maps] forall k int :: 0 <= k && k < len(alternativesValues) ==> fresh(alternativesValues[k]) && alternativesValues[k] != nil
+//@   loop 2 invariant [todo] forall k int :: iter <= k && k < len(allAlternatives) ==> allAlternatives[k] == model.altAt(resParams.ConsideredAlternatives, resParams.NotConsideredAlternatives, k)
+//@   loop 2 invariant [ids] forall k int :: 0 <= k && k < iter ==> allAlternatives[k].Id == model.altAt(resParams.ConsideredAlternatives, resParams.NotConsideredAlternatives, k).Id && fresh(allAlternatives[k].Criteria)
+//@   loop 2 invariant [mirrored] forall i int, k int :: 0 <= i && i < iter && 0 <= k && k < len(*criteriaToReverse) ==>
+//@             (*criteriaToReverse)[k].criterion.Id in allAlternatives[i].Criteria &&
+//@             allAlternatives[i].Criteria[(*criteriaToReverse)[k].criterion.Id] ==
+//@               mirrored(*(*criteriaToReverse)[k].valRange, model.altAt(resParams.ConsideredAlternatives, resParams.NotConsideredAlternatives, i).Criteria[(*criteriaToReverse)[k].criterion.Id])
+//@   loop 2 invariant [others_unchanged] forall i int, q string :: 0 <= i && i < iter && (forall k int :: 0 <= k && k < len(*criteriaToReverse) ==> (*criteriaToReverse)[k].criterion.Id != q) ==>
+//@             ((q in allAlternatives[i].Criteria <==> q in model.altAt(resParams.ConsideredAlternatives, resParams.NotConsideredAlternatives, i).Criteria)
+//@              && (q in allAlternatives[i].Criteria ==> allAlternatives[i].Criteria[q] == model.altAt(resParams.ConsideredAlternatives, resParams.NotConsideredAlternatives, i).Criteria[q]))
+//@   loop 2 invariant [sep] forall i int, k int :: 0 <= i && i < iter && 0 <= k && k < len(alternativesValues) ==> alternativesValues[k] != allAlternatives[i].Criteria
+//@   loop 3 invariant [sep] forall j int, k int :: 0 <= j && j < i && 0 <= k && k < len(alternativesValues) ==> alternativesValues[k] != allAlternatives[j].Criteria && *newCriteria != allAlternatives[j].Criteria
+//@   loop 3 invariant [earlier_ids] forall k int :: 0 <= k && k < i ==> allAlternatives[k].Id == model.altAt(resParams.ConsideredAlternatives, resParams.NotConsideredAlternatives, k).Id && fresh(allAlternatives[k].Criteria)
+//@   loop 3 invariant [todo] forall k int :: i <= k && k < len(allAlternatives) ==> allAlternatives[k] == model.altAt(resParams.ConsideredAlternatives, resParams.NotConsideredAlternatives, k)
+//@   loop 3 invariant [earlier_mirrored] forall j int, k int :: 0 <= j && j < i && 0 <= k && k < len(*criteriaToReverse) ==>
+//@             (*criteriaToReverse)[k].criterion.Id in allAlternatives[j].Criteria &&
+//@             allAlternatives[j].Criteria[(*criteriaToReverse)[k].criterion.Id] ==
+//@               mirrored(*(*criteriaToReverse)[k].valRange, model.altAt(resParams.ConsideredAlternatives, resParams.NotConsideredAlternatives, j).Criteria[(*criteriaToReverse)[k].criterion.Id])
+//@   loop 3 invariant [earlier_others] forall j int, q string :: 0 <= j && j < i && (forall k int :: 0 <= k && k < len(*criteriaToReverse) ==> (*criteriaToReverse)[k].criterion.Id != q) ==>
+//@             ((q in allAlternatives[j].Criteria <==> q in model.altAt(resParams.ConsideredAlternatives, resParams.NotConsideredAlternatives, j).Criteria)
+//@              && (q in allAlternatives[j].Criteria ==> allAlternatives[j].Criteria[q] == model.altAt(resParams.ConsideredAlternatives, resParams.NotConsideredAlternatives, j).Criteria[q]))
+//@   loop 3 invariant [ctx] 0 <= i && i < len(allAlternatives) && a == model.altAt(resParams.ConsideredAlternatives, resParams.NotConsideredAlternatives, i)
+//@             && fresh(newCriteria) && fresh(*newCriteria) && *newCriteria != nil && len(alternativesValues) == len(*criteriaToReverse)
+//@   loop 3 invariant [maps] forall k int :: 0 <= k && k < len(alternativesValues) ==> fresh(alternativesValues[k]) && alternativesValues[k] != nil && alternativesValues[k] != *newCriteria
+//@   loop 3 invariant [done] forall k int :: 0 <= k && k < iter ==>
+//@             (*criteriaToReverse)[k].criterion.Id in *newCriteria &&
+//@             (*newCriteria)[(*criteriaToReverse)[k].criterion.Id] == mirrored(*(*criteriaToReverse)[k].valRange, a.Criteria[(*criteriaToReverse)[k].criterion.Id])
+//@   loop 3 invariant [rest] forall q string :: (forall k int :: 0 <= k && k < iter ==> (*criteriaToReverse)[k].criterion.Id != q) ==>
+//@             ((q in *newCriteria <==> q in a.Criteria) && (q in a.Criteria ==> (*newCriteria)[q] == a.Criteria[q]))
+
+//@ func updateAlternativesWithReversedCriteriaValues
+//@   property C16 C09
+//@   requires forall i int, j int :: 0 <= i && i < j && j < len(*criteriaToReverse) ==> (*criteriaToReverse)[i].criterion.Id != (*criteriaToReverse)[j].criterion.Id
+//@   requires forall k int :: 0 <= k && k < len(*criteriaToReverse) ==> (*criteriaToReverse)[k].valRange != nil
+//@   requires distinctAll(resParams.ConsideredAlternatives, resParams.NotConsideredAlternatives)
+//@   ensures [shape] fresh(result) && fresh(*result.consideredAlternatives) && fresh(*result.notConsideredAlternatives)
+//@             && len(*result.consideredAlternatives) == len(resParams.ConsideredAlternatives) && len(*result.notConsideredAlternatives) == len(resParams.NotConsideredAlternatives)
+//@   ensures [considered] forall i int :: 0 <= i && i < len(resParams.ConsideredAlternatives) ==>
+//@             reversedFrom((*result.consideredAlternatives)[i], resParams.ConsideredAlternatives[i], *criteriaToReverse)
+//@   ensures [not_considered] forall i int :: 0 <= i && i < len(resParams.NotConsideredAlternatives) ==>
+//@             reversedFrom((*result.notConsideredAlternatives)[i], resParams.NotConsideredAlternatives[i], *criteriaToReverse)
+//@   ensures [report_shape] len(*result.alternativesValues) == len(*criteriaToReverse)
+
+//@ func prepareReverseResult
+//@   property C16
+//@   requires len(*reverseResult.alternativesValues) >= len(*criteriaToReverse)
+//@   ensures [report] fresh(result) && len(result) == len(*criteriaToReverse) && forall k int :: 0 <= k && k < len(*criteriaToReverse) ==>
+//@             result[k].Id == (*criteriaToReverse)[k].criterion.Id && result[k].Type == (*criteriaToReverse)[k].criterion.Type
+//@             && result[k].ValuesRange == *(*criteriaToReverse)[k].valRange && result[k].AlternativesValues == (*reverseResult.alternativesValues)[k]
+//@   loop 1 invariant [ctx] fresh(result) && len(result) == len(*criteriaToReverse)
+//@   loop 1 invariant [report] forall k int :: 0 <= k && k < iter ==>
+//@             result[k].Id == (*criteriaToReverse)[k].criterion.Id && result[k].Type == (*criteriaToReverse)[k].criterion.Type
+//@             && result[k].ValuesRange == *(*criteriaToReverse)[k].valRange && result[k].AlternativesValues == (*reverseResult.alternativesValues)[k]
